@@ -52,6 +52,8 @@ type c19 struct {
 	// remover summaries: func object -> indices of its (directory, file name) parameters when its
 	// body removes path.Join(<dir param>, <name param>)
 	removers map[*types.Func][2]int
+	interp   *fsInterp
+	results  []fsFuncResult
 }
 
 func runC19(r *Report) {
@@ -573,19 +575,41 @@ func isNilIdent(e ast.Expr) bool {
 }
 
 func (c *c19) settle() (nGen int) {
-	for _, fd := range c.funcDecls() {
-		evsAll, bad := c.eventsOf(fd, fd.Body)
-		if len(evsAll) == 0 && len(bad) == 0 {
+	in := newFSInterp(c)
+	results := in.analyseAll()
+	c.interp, c.results = in, results
+	c.r.Analysed["helpers_inlined"] = in.inlinedHelpers()
+	c.r.Analysed["interpreter_states"] = in.steps
+	for _, fr := range results {
+		if fr.fd == nil {
 			continue
 		}
+		fd := fr.fd
+		relevant := fr.hasEv
+		for _, st := range fr.sites {
+			if len(st.names) > 0 || len(st.unresolved) > 0 {
+				relevant = true
+			}
+		}
+		if !relevant {
+			continue // e.g. the writer chain: the path is the caller's
+		}
 		nGen++
-		fkey := funcKey(c.p, fd)
-		for _, b := range bad {
-			c.r.Violation("C19/owner-only", fkey+":"+b, c.s.pos(fd.Pos()), "a file outside the owned set may be written or removed")
+		fkey := fr.key
+		if len(fr.und) > 0 {
+			c.r.Undecided("C19/settle-every-file", fkey, c.s.pos(fd.Pos()), strings.Join(uniq(fr.und), "; "))
+			continue
+		}
+		for _, st := range fr.sites {
+			for _, u := range uniq(st.unresolved) {
+				c.r.Violation("C19/owner-only", fkey+":"+st.what+"("+u+") is not path.Join(<outDir param>, <const>)", c.s.pos(st.pos), "a file outside the owned set may be written or removed")
+			}
 		}
 		owned := map[string]bool{}
-		for _, e := range evsAll {
-			owned[e.file] = true
+		for _, st := range fr.sites {
+			for nm := range st.names {
+				owned[nm] = true
+			}
 		}
 		var files []string
 		for f := range owned {
@@ -618,10 +642,6 @@ func (c *c19) settle() (nGen int) {
 				}
 				if o := identObj(c.info, l); o != nil && as.Tok == token.ASSIGN {
 					if pi := paramIndex(c.info, fd, o); pi >= 0 {
-						// is it a dir param used in Join?
-						for _, e := range evsAll {
-							_ = e
-						}
 						if tv, ok := o.Type().Underlying().(*types.Basic); ok && tv.Kind() == types.String && c.usedAsJoinDir(fd, o) {
 							stable = false
 							c.r.Violation("C19/outdir-stable", fkey+":assign "+o.Name(), c.s.pos(as.Pos()), "output directory parameter reassigned: later events touch another directory")
@@ -634,8 +654,75 @@ func (c *c19) settle() (nGen int) {
 		if stable {
 			c.r.OK("C19/outdir-stable", fkey, c.s.pos(fd.Pos()), "")
 		}
-		c.removeErrors(fd, fkey)
-		c.pathSensitive(fd, fkey, files)
+		// remove errors: a real failure of os.Remove must end in an error exit
+		lostRemove := map[string]bool{}
+		for d, pos := range fr.lost {
+			if strings.HasPrefix(d, "os.Remove(") {
+				name := d[:strings.Index(d, "@")]
+				lostRemove[name] = true
+				c.r.Violation("C19/error-not-swallowed", fkey+":"+name, c.s.pos(pos), "a remove error other than not-exist does not lead to a non-nil error return: on the path where "+d+" fails the function still returns success, so a stale file that cannot be removed goes unnoticed")
+			}
+		}
+		for _, st := range fr.sites {
+			if st.what != "os.Remove" {
+				continue
+			}
+			for nm := range st.names {
+				if !lostRemove["os.Remove("+nm+")"] {
+					c.r.OK("C19/error-not-swallowed", fkey+":os.Remove("+nm+")", c.s.pos(st.pos), "")
+				}
+			}
+		}
+		// events at the success exits
+		reported := map[string]bool{}
+		viol := func(key, pos, detail string) {
+			if !reported[key+detail] {
+				reported[key+detail] = true
+				c.r.Violation("C19/settle-every-file", key, pos, detail)
+			}
+		}
+		for msg, pos := range in.evViol {
+			f := msg[:strings.Index(msg, ":")]
+			viol(fkey+":"+f, c.s.pos(pos), msg[strings.Index(msg, ":")+2:])
+		}
+		for _, e := range fr.success {
+			for _, f := range files {
+				pol, okp := c19Polarity[f]
+				if !okp {
+					continue
+				}
+				cv := e.st.cond[pol.cond]
+				key := fkey + ":" + f
+				switch e.st.ev[f] {
+				case "":
+					viol(key, c.s.pos(e.pos), "a path reaches `return nil` without writing or removing "+f+": a stale copy from an earlier invocation survives")
+				case "write":
+					if cv != 1 {
+						viol(key, c.s.pos(e.pos), fmt.Sprintf("%s is written on a path where its condition (%s: %s) is not established true", f, pol.cond, pol.why))
+					}
+				case "remove":
+					if cv != -1 {
+						viol(key, c.s.pos(e.pos), fmt.Sprintf("%s is removed (and not rewritten) on a path where its condition (%s: %s) is not established false", f, pol.cond, pol.why))
+					}
+				}
+			}
+		}
+		c.r.Analysed["success_exits_reached:"+fkey] = len(fr.success)
+		if len(fr.success) == 0 {
+			c.r.Undecided("C19/settle-every-file", fkey, c.s.pos(fd.Pos()), "no success return found in the generating function")
+		}
+		for _, f := range files {
+			key := fkey + ":" + f
+			hit := false
+			for k := range reported {
+				if strings.HasPrefix(k, key) {
+					hit = true
+				}
+			}
+			if !hit {
+				c.r.OK("C19/settle-every-file", key, c.s.pos(fd.Pos()), "settled on every success path with the documented polarity")
+			}
+		}
 	}
 	return
 }
@@ -1003,24 +1090,6 @@ func (c *c19) ownerOnly() {
 						return true
 					}
 					nm := calleeName(p.TypesInfo, call)
-					if path == modPath {
-						if names, isR, ok := c.removerCall(fd, call); isR {
-							n++
-							k := fkey + ":" + types.ExprString(call.Fun)
-							bad := ""
-							for _, nm := range names {
-								if _, owned := c19Polarity[nm]; !owned {
-									bad = nm
-								}
-							}
-							if ok && bad == "" {
-								c.r.OK("C19/owner-only", k+"("+strings.Join(names, ",")+")", c.s.pos(call.Pos()), "remove wrapper called with the output directory and owned names")
-							} else {
-								c.r.Violation("C19/owner-only", k+"("+argStr(call)+")", c.s.pos(call.Pos()), "remove wrapper called with something other than (<outDir param>, <owned constant names>): a file goag does not own may be removed")
-							}
-							return true
-						}
-					}
 					if !c19Mutators[nm] {
 						return true
 					}
@@ -1028,13 +1097,28 @@ func (c *c19) ownerOnly() {
 					key := fkey + ":" + nm
 					pos := c.s.pos(call.Pos())
 					switch {
-					case path == modPath && nm == "os.Remove" && c.isRemover(fobj):
-						c.r.OK("C19/owner-only", key+"(wrapper)", pos, "remove wrapper: removes path.Join(<dir>, <name>) of its parameters; its call sites are judged")
 					case path == modPath && nm == "os.Remove":
-						if name, _, ok := c.ownedName(fd, call.Args[0], 0); ok {
-							c.r.OK("C19/owner-only", key+"("+name+")", pos, "remove of an owned name")
-						} else {
-							c.r.Violation("C19/owner-only", key+"("+types.ExprString(call.Args[0])+")", pos, "removes a path that is not path.Join(outDir, <owned const>)")
+						site := c.interp.sites[call.Pos()]
+						switch {
+						case site == nil || (len(site.names) == 0 && len(site.unresolved) == 0):
+							c.r.Violation("C19/owner-only", key+"("+types.ExprString(call.Args[0])+")", pos, "os.Remove of a path that the interpretation never resolved to path.Join(outDir, <owned const>): the helper is not called with owned names from a generating function")
+						case len(site.unresolved) > 0:
+							c.r.Violation("C19/owner-only", key+"("+types.ExprString(call.Args[0])+")", pos, "removes a path that is not path.Join(outDir, <owned const>): "+strings.Join(uniq(site.unresolved), ", "))
+						default:
+							var names []string
+							bad := ""
+							for nm := range site.names {
+								names = append(names, nm)
+								if _, owned := c19Polarity[nm]; !owned {
+									bad = nm
+								}
+							}
+							sort.Strings(names)
+							if bad != "" {
+								c.r.Violation("C19/owner-only", key+"("+strings.Join(names, ",")+")", pos, "removes "+bad+", which is not a file goag owns")
+							} else {
+								c.r.OK("C19/owner-only", key+"("+strings.Join(names, ",")+")", pos, "remove of owned name(s)")
+							}
 						}
 					case path == modPath && isWriter && (nm == "os.OpenFile" || nm == "os.File.Write" || nm == "os.File.WriteString"):
 						c.r.OK("C19/owner-only", key, pos, "inside the single writer")
@@ -1065,7 +1149,15 @@ func (c *c19) ownerOnly() {
 		}
 	}
 	c.r.Analysed["fs_mutator_call_sites"] = n
-	c.r.FloorMin("file-system mutator call sites reachable from Generate", n, 5)
+	// the count of call sites depends on how the code is factored; what must not drop is the
+	// number of resolved (operation, owned file) pairs: every owned file needs a write and a remove
+	pairs := 0
+	for _, st := range c.interp.sites {
+		pairs += len(st.names)
+	}
+	c.r.Analysed["resolved_operation_file_pairs"] = pairs
+	c.r.FloorMin("file-system mutator call sites reachable from Generate", n, 3)
+	c.r.FloorMin("resolved (operation, owned file) pairs", pairs, 10)
 }
 
 func (c *c19) isRemover(f *types.Func) bool {
